@@ -19,11 +19,11 @@ CHECKS = {
          "Generated ikm / key pairs / RNG streams for the 4 KEMs x {plain, auth}; every ikm length 0..=300 and 64 KiB swept; the P-256 DeriveKeyPair retry path is reached through two committed golden inputs found by offline search.",
          "Trusts sha2 and the self-checked arithmetic oracle (n*G=O, RFC 7748 vectors, corpus/curves.json). Retry paths for P-384/P-521 are cryptographically unreachable.",
          "DESIGN.md section 4 C03", "hv"),
- "C04": ("model-based stateful property testing of the sender's sequence counter with a recording AEAD (nonce observed directly) + boundary sweep + long public-API runs",
+ "C04": ("model-based stateful property testing of the sender's sequence counter with a recording AEAD (nonce observed directly) + boundary sweep + long public-API runs + fz_sender libFuzzer target + compile probe (sender context not Clone)",
          "Generated seal histories with hook jumps to every byte-carry boundary and to 2^64-1; the nonce handed to a user-defined recording AEAD is compared absolutely with stored base nonce XOR BE(i); on the real AEADs the ciphertext is compared with AEAD(key_ref, expected nonce); limit, latch and untouched buffer are checked against an abstract model after every step.",
          "2^64 positions are sampled at all carries/both ends/random interior; positions >= 2^24 only through the verif_set_seq hook; reference key schedule trusted for the real-AEAD comparison.",
          "DESIGN.md section 4 C04", "hv"),
- "C05": ("model-based stateful property testing of the receiver: adversarial delivery histories (next/replay/future/tamper/short/garbage) x both APIs, from any start position",
+ "C05": ("model-based stateful property testing of the receiver: adversarial delivery histories (next/replay/future/aliased position/tamper/short/garbage) x both APIs, from any start position + endurance run of millions of rejected deliveries + fz_receiver libFuzzer target",
          "Generated delivery histories interpreted against the implementation and an abstract position model in lock-step; the concrete counter (hook) is compared with the model after every step; every delivery kind x API x boundary position swept.",
          "Start positions >= 2^24 are reached through the verif_set_seq hook; buffer contents after OpenError are unconstrained (documented).",
          "DESIGN.md section 4 C05", "hv"),
@@ -67,7 +67,7 @@ CHECKS = {
          "No panic, overflow or abort; each entry point fails only with its allowed error kinds (setup_sender: EncapError, setup_receiver: DecapError, open: OpenError/MessageLimitReached, ...). Every ciphertext length 0..=Nt+17 x 36 suites and every key length swept.",
          "Inputs near usize::MAX cannot be allocated; documented caller-side panics (write_exact, export-only seal/open) excluded.",
          "DESIGN.md section 4 C13", "hv"),
- "C16": ("property testing over suites/modes/roles of the memory image of a dropped value (secrets located through the read-only hook accessors) + drop-ledger hook invariant, single-threaded",
+ "C16": ("property testing over suites/modes/roles/operation counts of the memory image of a dropped value (secrets located through the read-only hook accessors; masked and operation-written copies reported) + drop-ledger hook invariant, single-threaded + guard-off release-build probe of freed memory",
          "After drop_in_place the bytes that held the base nonce, exporter secret and shared secret are zero; the ledger shows a wiping drop of the temporary AEAD key buffer per setup and no drop that left non-zero bytes. All 48x4x4 cells swept.",
          "Reads a dropped slot with volatile reads on memory the harness owns; stale copies left by moves in uninitialised union bytes are recorded as an observation, not judged.",
          "DESIGN.md section 4 C16", "hv"),
@@ -96,8 +96,8 @@ manifest = {
     "kind_free_text": "Rust binary: corpus replay + exhaustive sweeps + 16-worker proptest driver with shrinking (proptest for generated cases, structural JSON shrinking for sweep/corpus failures); oracles = independent RFC 9180 reference model, own big-integer curve arithmetic, abstract sequence models"},
    {"name": "fuzz", "path": "fuzz/", "serves_properties": ["C02", "C04", "C05", "C09", "C12", "C13", "C14"],
     "kind_free_text": "cargo-fuzz / libFuzzer targets fz_deser, fz_open, fz_receiver, fz_sender, fz_session (thorough tier, -fork=16): bytes are decoded into the same case types and judged by the same oracles inside the target; artifacts are re-checked outside libFuzzer before they count"},
-   {"name": "probes", "path": "probes/", "serves_properties": ["C17", "C18"],
-    "kind_free_text": "small crates compiled against the tree under test: in-place / allocating / hook-use probes per feature subset (C17), static Send+Sync assertions over all suites (C18)"},
+   {"name": "probes", "path": "probes/", "serves_properties": ["C04", "C16", "C17", "C18"],
+    "kind_free_text": "small crates compiled against the tree under test: in-place / allocating / hook-use probes per feature subset (C17), static Send+Sync assertions over all suites (C18), sender context must not be Clone (C04), release-mode guard-off inspection of the freed block of a dropped context (C16)"},
  ],
  "checks": [],
  "not_applicable": [],
